@@ -36,6 +36,8 @@ T = TypeVar("T")
 TB = TypeVar("TB", bound=int)
 TC = TypeVar("TC", int, str)
 def use(x: object) -> None: pass
+MyAlias = Dict[str, T]
+from annotated_types import Gt
 '''
 
 ATOMS = ["int", "None", "str", "A", "memoryview", "NT", "TD", "HasLen", "T", "TB", "TC", "Any", "object", "float", "type", "list", "tuple", "'A'", "LiteralString", "Never", "bytes"]
@@ -43,7 +45,9 @@ UNARY = ["Optional[%s]", "%s | None", "list[%s]", "List[%s]", "tuple[%s, ...]", 
          "Iterable[%s]", "frozenset[%s]", "set[%s]", "Annotated[%s, 'x']", "Final[%s]", "ClassVar[%s]", "Callable[[%s], None]", "Callable[..., %s]", "collections.abc.Callable[[%s], str]",
          "tuple[int, *tuple[%s, ...]]", "tuple[int, Unpack[tuple[%s, ...]]]", "list['%s']", "typing.Optional[%s]"]
 BINARY = ["Union[%s, %s]", "%s | %s", "dict[%s, %s]", "Dict[%s, %s]", "tuple[%s, %s]", "Mapping[%s, %s]", "Callable[[%s], %s]"]
-EXTRA = ["tuple[()]", "Literal[1, 'a']", "Literal[None]", "Literal[True]", "Literal[b'a']", "type[Any]", "type[None]", "Optional[Callable[[int], None]]", "dict[str, list[int]]"]
+EXTRA = ["tuple[()]", "Literal[1, 'a']", "Literal[None]", "Literal[True]", "Literal[b'a']", "type[Any]", "type[None]", "Optional[Callable[[int], None]]", "dict[str, list[int]]",
+         # forms whose quoted spelling goes through other code than the evaluated object: nested / signed literals, a subscripted generic alias, call metadata, bare Tuple
+         "Literal[Literal[1, 2], 3]", "Literal[+1]", "Literal[-1]", "MyAlias[int]", "Annotated[int, Gt(0)]", "Tuple", "Literal[1, None]", "Optional[Literal['a', 'b']]"]
 SMALL = ["int", "None", "A", "memoryview", "T", "'A'"]
 
 
